@@ -31,7 +31,11 @@ Inductive case :=
 | CErr (e : errkind) (impl : Z)
 (* a real upstream answering after [delay] behind HTTPProxy with the transport built from
    ResponseHeaderTimeout = [limit] (all in ms): status seen by the client, elapsed ms *)
-| CServe (limit delay ust : Z) (impl_status elapsed slack : Z).
+| CServe (limit delay ust : Z) (impl_status elapsed slack : Z)
+(* the dial timeout in action, for each kind of transport (plain, skip-verify TLS, per-route host
+   override): [limit] in ns; [connect] = a lower bound of what connecting costs on loopback (1000 ns is
+   never met); status seen by the client *)
+| CDial (kind : N) (limit connect ust : Z) (impl_status : Z).
 
 Definition check_case (c : case) : N :=
   match c with
@@ -61,4 +65,7 @@ Definition check_case (c : case) : N :=
                   then (st =? 504) && (elapsed <=? limit + slack)
                   else if (limit =? 0) || (delay + 20 <=? limit) then st =? ust else true in
       verdict same spec None true
+  | CDial _ limit connect ust st =>
+      let m := dial limit connect ust in
+      verdict (st =? m) (st =? m) None true
   end.
